@@ -120,7 +120,7 @@ def run_fin(case, warn=None):
     res = exc = None
     with contextlib.redirect_stdout(sink), contextlib.redirect_stderr(sink):
         try:
-            res = runner.run("the-command", **kw)
+            res = runner.run(case.get("cmd", "the-command"), **kw)
             if case["async"]:
                 res = res.join()
         except (ThreadException, Failure) as e:
@@ -273,13 +273,13 @@ def program_exit(spec):
         if body == "exit":
             raise Exit(spec.get("message"), spec.get("code"))
         if body == "ue":
-            raise UnexpectedExit(Result(command="x", exited=spec["exited"], hide=tuple(spec.get("hide", ())),
+            raise UnexpectedExit(Result(command=spec.get("cmd", "x"), exited=spec["exited"], hide=tuple(spec.get("hide", ())),
                                         stdout=spec.get("out", ""), stderr=spec.get("err", "")))
         if body == "real":
             c.run(spec["cmd"], hide=True, in_stream=False)
         if body == "scripted":
             r = Scripted(c, out=text_chunks(spec["out"]), err=text_chunks(spec["err"]), exited=spec["want"], pty=spec.get("pty", False))
-            r.run("the-command", hide=spec["hide"], in_stream=False, encoding="utf-8")
+            r.run(spec.get("cmd", "the-command"), hide=spec["hide"], in_stream=False, encoding="utf-8")
         if body == "realout":
             c.run('printf "%s" "$VERIF_OUT"; printf "%s" "$VERIF_ERR" >&2; exit ' + str(spec["want"]), hide=spec["hide"],
                   in_stream=False, encoding="utf-8", env={"VERIF_OUT": spec["out"], "VERIF_ERR": spec["err"]})
